@@ -1402,10 +1402,12 @@ def _run(scn, ch, log, connector_mod, BaseConn):
                 ho_here = max((h for h in handovers.get(rid, []) if h[0] <= step), default=ho)
                 for n2 in sorted(sent):
                     e2 = sent[n2]
-                    # judged when that answer is the response the caller of the request before was given (after stray
-                    # bytes the answers of a connection are shifted - a cascade of the stray, judged elsewhere)
+                    # judged when that answer is the response the caller of the request before was given and no stray
+                    # bytes stand before it in the peer's output (after stray bytes the answers of a connection are shifted
+                    # or glued to the stray: the client never saw this head as a head - a cascade of the stray, judged elsewhere)
                     if (e2["conn"] == cid and e2["req"] == prev and e2["kind"] == "answer" and msgs.get(n2, {}).get("announces_end")
                             and delivered.get(prev) is not None and int(delivered[prev][3]) == n2
+                            and not any(n_ in sent and sent[n_]["conn"] == cid and sent[n_]["a"] < e2["a"] for _k, n_ in info["abnormal"])
                             and answer_complete_before(cid, prev, ho_here[0])):
                         violate("no_reuse_after_abnormal", "reused_after_peer_announced_end:" + msgs[n2]["announces_end"],
                                 f"connection c{cid}: the peer's answer n{n2} to request {prev} ({all_reqs[prev].get('old')}) announced "
